@@ -42,10 +42,10 @@ Theorem C09_unsupported_reported_gostring : forall t, has_unsup true false t = t
 Proof. exact unsupported_reported_gostring. Qed.
 Print Assumptions C09_unsupported_reported_gostring.
 
-(* ---- each Add accepts exactly the documented shapes (30 of the 33 plugins) ---- *)
+(* ---- each Add accepts exactly the documented shapes (all 33 plugins) ---- *)
 Theorem C09_validate_exact_all_any_filter_takewhile : forall typs,
   add_pred typs = Ok <->
-  exists t v, typs = [ASig (TCons t TNil) (TCons (ABasic KBool) TNil) v; ASlice t].
+  exists t, typs = [ASig (TCons t TNil) (TCons (ABasic KBool) TNil) false; ASlice t].
 Proof. exact validate_exact_pred. Qed.
 Print Assumptions C09_validate_exact_all_any_filter_takewhile.
 Theorem C09_validate_exact_clone_keys_set_sort_unique : forall typs,
@@ -101,22 +101,45 @@ Proof. exact validate_exact_contains. Qed.
 Print Assumptions C09_validate_exact_contains.
 Theorem C09_validate_exact_traverse : forall typs,
   add_traverse typs = Ok <->
-  exists t r e v, typs = [ASig (TCons t TNil) (TCons r (TCons e TNil)) v; ASlice t] /\ is_error e = true.
+  exists t r e, typs = [ASig (TCons t TNil) (TCons r (TCons e TNil)) false; ASlice t] /\ is_error e = true.
 Proof. exact validate_exact_traverse. Qed.
 Print Assumptions C09_validate_exact_traverse.
 Theorem C09_validate_exact_pipeline : forall typs,
   add_pipeline typs = Ok <->
-  exists a b c d1 v1 v2,
-    typs = [ASig (TCons a TNil) (TCons (AChan d1 b) TNil) v1; ASig (TCons b TNil) (TCons (AChan DRecv c) TNil) v2]
+  exists a b c d1,
+    typs = [ASig (TCons a TNil) (TCons (AChan d1 b) TNil) false; ASig (TCons b TNil) (TCons (AChan DRecv c) TNil) false]
     /\ d1 <> DSend.
 Proof. exact validate_exact_pipeline. Qed.
 Print Assumptions C09_validate_exact_pipeline.
+(* apply: a non-variadic function and a value for its last parameter *)
+Theorem C09_validate_exact_apply : forall typs,
+  add_apply typs = Ok <->
+  exists ps rs b last, typs = [ASig ps rs false; b] /\ alast ps = Some last /\ assignable b last = true.
+Proof. exact validate_exact_apply. Qed.
+Print Assumptions C09_validate_exact_apply.
+(* do: two or more func() (T, error) *)
+Theorem C09_validate_exact_do : forall typs,
+  add_do typs = Ok <->
+  2 <= length typs /\
+  Forall (fun t => exists r e v, t = ASig TNil (TCons r (TCons e TNil)) v /\ is_error e = true) typs.
+Proof. exact validate_exact_do. Qed.
+Print Assumptions C09_validate_exact_do.
+(* compose: two or more non-variadic functions that return an error last; the other results of each
+   are assignable, one by one, to the parameters of the next (compose_links, Exact.v) *)
+Theorem C09_validate_exact_compose : forall typs,
+  add_compose typs = Ok <->
+  2 <= length typs /\
+  exists l : list (atys * atys),
+    Forall2 (fun t pr => exists e, t = ASig (fst pr) (snd pr) false /\ alast (snd pr) = Some e /\ is_error e = true) typs l /\
+    compose_links l.
+Proof. exact validate_exact_compose. Qed.
+Print Assumptions C09_validate_exact_compose.
 Theorem C09_validate_exact_fmap : forall typs,
   add_fmap typs = Ok <->
-  (exists e r v, typs = [ASig (TCons e TNil) (TCons r TNil) v; ASlice e]) \/
-  (exists k r v, typs = [ASig (TCons (ABasic KInt32) TNil) (TCons r TNil) v; ABasic k] /\ default_kind k = KString) \/
-  (exists e rs v er v', typs = [ASig (TCons e TNil) rs v; ASig TNil (TCons e (TCons er TNil)) v'] /\ is_error er = true) \/
-  (exists e r v d, typs = [ASig (TCons e TNil) (TCons r TNil) v; AChan d e] /\ d <> DSend).
+  (exists e r, typs = [ASig (TCons e TNil) (TCons r TNil) false; ASlice e]) \/
+  (exists k r, typs = [ASig (TCons (ABasic KInt32) TNil) (TCons r TNil) false; ABasic k] /\ default_kind k = KString) \/
+  (exists e rs er v', typs = [ASig (TCons e TNil) rs false; ASig TNil (TCons e (TCons er TNil)) v'] /\ is_error er = true) \/
+  (exists e r d, typs = [ASig (TCons e TNil) (TCons r TNil) false; AChan d e] /\ d <> DSend).
 Proof. exact validate_exact_fmap. Qed.
 Print Assumptions C09_validate_exact_fmap.
 (* join: [][]T, []string, []chan T (not send only), (func() (.., error), error) as two arguments or
@@ -179,6 +202,19 @@ Theorem C09_sendonly_chan_refuted :
   run_model PDup [AChan DRecv (ABasic KInt)] = Ok.
 Proof. exact sendonly_chan_refuted_w. Qed.
 Print Assumptions C09_sendonly_chan_refuted.
+(* a variadic function whose parameter type fits the other arguments: accepted by the Add functions
+   before C09-fix-variadic-function-arguments, the specification says it has to be reported, the fixed
+   run reports it and the same call with the non-variadic function is still accepted *)
+Theorem C09_variadic_argument_refuted :
+  add_pipeline_prefix vw_pipeline = Ok /\ must_report PPipeline vw_pipeline = true /\
+  run_model PPipeline vw_pipeline = Err /\
+  (match vw_fmap true with [f; ASlice e] => fmap_fn1_prefix f e | _ => Err end) = Ok /\
+  must_report PFmap (vw_fmap true) = true /\ run_model PFmap (vw_fmap true) = Err /\
+  run_model PFmap (vw_fmap false) = Ok /\
+  add_pred_prefix (vw_filter true) = Ok /\ must_report PFilter (vw_filter true) = true /\
+  run_model PFilter (vw_filter true) = Err /\ run_model PFilter (vw_filter false) = Ok.
+Proof. exact variadic_argument_refuted_w. Qed.
+Print Assumptions C09_variadic_argument_refuted.
 Theorem C09_untyped_nil_refuted :
   add_one [ABasic KUNil] = Ok /\ hash_stmt (ABasic KUNil) = Ok /\
   must_report PHash [ABasic KUNil] = true /\ run_model PHash [ABasic KUNil] = Err /\
